@@ -36,6 +36,15 @@ ID_CATALOGUE = [b'#....meta: length=3', b'#meta length=3', b'#.Meta: length=3', 
                 b'#..meta: a$x=b, length=3', b'#..meta: a=/x, length=3', b'#..meta: a=x/, length=3',
                 b'#..meta: a b=1, length=3', b'#..meta: a=1 2, length=3', b'#..METa: length=3', b'#..metadata: length=3',
                 b'#..met: length=3', b'#.\x2e.meta: length=3', b'#..meta: length=3\r', b'#..meta: length=3, a="b"']
+# a repeated key: every occurrence must be valid, the last one is reported
+for _bad in (b'+', b'b c', b'b=c', b'\xc3\xa9', b'', b'b,c', b'"b"'):
+    ID_CATALOGUE += [b'#..meta: length=3, a=' + _bad + b', a=b', b'#..meta: length=3, a=b, a=' + _bad,
+                     b'#..meta: a=' + _bad + b', length=3, a=b']
+ID_CATALOGUE += [b'#..meta: length=3, a=1, a=2', b'#..meta: length=9, length=3', b'#..meta: length=3, a=b, A=c, a=d']
+# every non-ASCII byte, in key and in value position
+ID_CATALOGUE += [b'#..meta: length=3, a' + bytes([_b]) + b'=1' for _b in range(128, 256, 3)]
+ID_CATALOGUE += [b'#..meta: length=3, a=b' + bytes([_b]) for _b in range(128, 256)]
+ID_CATALOGUE += [b'#..meta: length=3, a=' + bytes([_b]) + b'b' for _b in range(129, 256, 5)]
 
 
 def file_for(s, which=1):
